@@ -35,6 +35,10 @@ def canon_analysis(h, pairs=None, with_profiles=True, with_names=False, with_ord
         held = [(t, h.create_tree_profile(hog=t)) for t in h.get_list_top_level_hogs()]
         out['tpfull'] = ob.profileS(full.treemap)
         out['tphog'] = sorted(ob.profileS(tp.treemap, pathof(t.genome.taxon)) + '@' + nodekey(t) for t, tp in held)
+        # ... and of the copies of duplications (paralogous sub-HOGs, written out or implied: same level, possibly the same
+        # inherited id -- r11-C14b), asked one after the other on this analysis
+        copies = sorted([x for t in h.get_list_top_level_hogs() for x in all_nodes(t) if isinstance(x, ag.HOG) and x.arose_by_duplication != False], key=nodekey)[:8]   # noqa: E712
+        out['tpcopies'] = sorted(ob.profileS(h.create_tree_profile(hog=x).treemap, pathof(x.genome.taxon)) + '@' + nodekey(x) for x in copies)
     return out, allp
 
 def first_diff(a, b):
@@ -537,6 +541,10 @@ def c15(tier, seed):
                 for _, v in decl.get(g.unique_id, []):
                     if not any(x is g for x in h.get_genes_by_external_id(v)):
                         bad.append('get_genes_by_external_id(%r) misses %s' % (v, g.unique_id))
+                for k_, v_ in g.get_dict_xref().items():
+                    # ... also the cross-references the gene object itself reports (r11-C15b)
+                    if k_ != 'id' and not any(x is g for x in h.get_genes_by_external_id(v_)):
+                        bad.append('gene %s reports the cross-reference %s=%r but is not found under it' % (g.unique_id, k_, v_))
                 top = h.get_hog_by_gene(g)
                 if top is not g.get_top_level_hog():
                     bad.append('get_hog_by_gene(%s)' % g.unique_id)
@@ -635,6 +643,24 @@ def c15(tier, seed):
             h.create_tree_profile()
             coherent('after the whole-dataset tree profile')
             ex.res.count('lookups_after_lazy_genome_creation')
+            # ... and after iHam pages (r11-C15a: polytomies of the LIVE tree resolved for the page): the common ancestor of
+            # every pair of species is still the genome at the node the INPUT tree gives
+            for t_ in h.get_list_top_level_hogs()[:3]:
+                h.create_iHam(t_)
+            coherent('after iHam pages')
+            exg2 = h.get_list_extant_genomes()
+            gs2 = genomes_of(h)
+            for x_, y_ in list(itertools.combinations(exg2, 2))[:15]:
+                wp_ = gen.lcp([pathof(x_.taxon), pathof(y_.taxon)])
+                try:
+                    got_ = h.get_ancestral_genome_by_mrca_of_genome_set({x_, y_})
+                    if wp_ not in gs2 or got_ is not gs2[wp_]:
+                        bad.append('after iHam pages: the common ancestor of %s and %s is not the genome at %s' % (x_.name, y_.name, taxS(wp_)))
+                except KeyError:
+                    if wp_ in gs2:
+                        bad.append('after iHam pages: the common ancestor of %s and %s raises KeyError although %s has a genome' % (x_.name, y_.name, taxS(wp_)))
+            if sum(1 for _ in h.taxonomy.tree.traverse()) != len(list(gen.paths(D.T))):
+                bad.append('after iHam pages the species tree of the analysis has %d nodes, the input tree %d' % (sum(1 for _ in h.taxonomy.tree.traverse()), len(list(gen.paths(D.T)))))
             ids_ = lambda xs: sorted(map(id, xs))
             bad += orc.fresh_results([
                 ('get_list_top_level_hogs', h.get_list_top_level_hogs, ids_), ('get_list_extant_genes', h.get_list_extant_genes, ids_),
@@ -972,6 +998,8 @@ def c18(tier, seed):
                     subs_ = [x for t_ in hh.get_list_top_level_hogs() for x in all_nodes(t_) if isinstance(x, ag.HOG) and x.genome.taxon.up is not None]
                     for x in ex.rng.sample(subs_, min(3, len(subs_))):
                         hh.create_tree_profile(hog=x)
+                        if hh.taxonomy.tree_str != str0_:
+                            bad.append('the stored tree text changed during the profile of a sub-HOG: %r -> %r' % (str0_[:80], hh.taxonomy.tree_str[:80])); break
                     hh.create_tree_profile()
                     ex.res.count('taxonomy_reinspected_after_profiles')
                     seen_ = 0
